@@ -34,20 +34,22 @@ type acctItem struct {
 }
 
 type acctWorld struct {
-	r       *lib.Run
-	which   string // "C03" or "C04"
-	rng     *rand.Rand
-	c       disk.Cache
-	srv     *lib.Server // nil for pure disk-API histories
-	px      *lib.FakeProxy
-	max     int64
-	storage string
-	cas     []acctItem // pool of CAS blobs (content fixed by hash)
-	acKeys  []string   // pool of AC/RAW hashes
-	hist    []string   // op log for the replay file
-	histMu  sync.Mutex
-	caseID  string
-	ownDir  string
+	r         *lib.Run
+	which     string // "C03" or "C04"
+	rng       *rand.Rand
+	c         disk.Cache
+	srv       *lib.Server // nil for pure disk-API histories
+	px        *lib.FakeProxy
+	max       int64
+	storage   string
+	cas       []acctItem // pool of CAS blobs (content fixed by hash)
+	acKeys    []string   // pool of AC/RAW hashes
+	hist      []string   // op log for the replay file
+	histMu    sync.Mutex
+	caseID    string
+	ownDir    string
+	dirChecks int
+	lastStep  bool
 
 	// conservative bounds for in-flight reservations (see DESIGN C03)
 	started, finished atomic.Int64
@@ -435,7 +437,14 @@ func (w *acctWorld) checkQuiescent(phase string) {
 		}
 		return
 	}
-	d, _, verdict := lib.CheckDirQuiescent(w.c, true)
+	// listing + name/size comparison at every quiescent point; the deep parse of every compressed blob (two decoders +
+	// content hash) at every 4th and at the end of each history (phase "concurrent-quiescence" / last step)
+	w.dirChecks++
+	deep := w.dirChecks%4 == 0 || phase != "sequential" || w.lastStep
+	d, _, verdict := lib.CheckDirQuiescent(w.c, deep)
+	if deep {
+		w.r.Count("dir.deep_checks")
+	}
 	switch verdict {
 	case "violated":
 		w.r.Violation("C04:"+phase+":"+dirClass(d), fmt.Sprintf("directory != index at quiescence (%s): %s", phase, d.String()), w.detail(d))
@@ -474,6 +483,9 @@ func runAcctEngine(r *lib.Run, which string) {
 	r.Assume("snapshot hook disk.VerifSnapshot copies the index under the cache's own mutex")
 	nSeq := r.N(250, 3000)
 	nConc := r.N(60, 800)
+	if which == "C04" {
+		nSeq, nConc = r.N(150, 2500), r.N(50, 700) // every step walks the directory tree
+	}
 	maxOps := r.N(40, 120)
 	rng := r.Rng("acct")
 
@@ -549,6 +561,7 @@ func runAcctEngine(r *lib.Run, which string) {
 		if !concurrent {
 			for s := 0; s < nops; s++ {
 				w.step(rng, false)
+				w.lastStep = s == nops-1
 				w.checkQuiescent("sequential")
 				r.Eval()
 			}
